@@ -198,3 +198,31 @@ class DerivCheckUnit(Unit):
 
     def key(self, case, r):
         return "derivcheck:" + (self.oracle(case, r) or "mismatch").split(":")[0]
+
+
+def wide_oracle(rep, tier, seed):
+    """C19 beyond a couple of hundred variables: a wrong gradient / Jacobian entry in a late column is reported there."""
+    import random
+    from pygradflow.params import DerivCheck
+    r = random.Random(seed + 19)
+    n_cmp = 0
+    for k in range(4 if tier == "thorough" else 2):
+        n = r.choice([230, 260])
+        col = r.randint(205, n - 1)
+        which = k % 2
+        P = [[0.0] * n for _ in range(n)]
+        for i in range(n):
+            P[i][i] = 1.0
+        spec = Spec(P, [0.0] * n, 0.0, [[[0.0] * n for _ in range(n)]] if which else [], [[1.0] * n] if which else [],
+                    [0.0] if which else [], [-1e300 if False else float("-inf")] * n, [float("inf")] * n,
+                    [0.0] if which else [], [0.0] if which else [])
+        case = {"spec": spec.to_json(), "sc": None, "corrupt": [which, 0, col, 8.0], "x0": [0.0] * n, "y0": [0.0] * spec.m,
+                "first": True, "second": False, "eps": 2.0 ** -10, "atol": 2.0 ** -4, "fmt": "csr"}
+        out = run_solve(case)
+        n_cmp += 1
+        if out.get("res") is None or out["res"][1] != col:
+            msg = ("wide: entry (0, %d) of the %s of a %d-variable problem is wrong by 8, the derivative check reports %r"
+                   % (col, "Jacobian" if which else "gradient", n, out.get("res")))
+            rep.failure("derivcheck:wide", msg, {"kind": "wide", "case": {"n": n, "col": col, "which": which}, "what": msg})
+    rep.cov.setdefault("oracle", {})["wide_problems"] = {"checked": n_cmp, "note": "search, not proof"}
+    rep.cov["evaluations"] += n_cmp
